@@ -312,6 +312,10 @@ class Model:
     def run(self):
         try:
             self.driver()
+            if self.o.get("ledger"):
+                # after the user deleted their own buffers and destroyed the scanner every
+                # block obtained through yyalloc/yyrealloc must have gone through yyfree
+                self.emit(["A", "live", "0", "*", "*", "*"], wild={3, 4, 5})
             self.emit(["Z"])
         except Stop:
             pass
@@ -725,6 +729,10 @@ class Model:
         elif k == "begin":
             self.sc = op[1]
             self.emit(["B", str(self.sc)])
+        elif k == "tables":          # yytables_fload of the matching file succeeds
+            self.emit(["X", "tables", "0"])
+        elif k == "tables_destroy":
+            pass
         elif k == "begin_param":     # start condition taken from the input pack
             self.sc = int(self.case.get("param", 0))
             self.emit(["B", str(self.sc)])
